@@ -27,11 +27,28 @@ NeighOK(e) == LET N == Pow2(e.d) IN
               /\ e.ctr = e.c /\ e.cplain = 0 /\ e.free = 1
 NeighBadOK(e) == e.p = 1
 
+(* C14: internal / external edges through every accessor *)
+SeqSet(s) == {s[k] : k \in 1..Len(s)}
+IsSetSeq(s, S) == SeqSet(s) = S /\ Len(s) = Cardinality(S)
+EdgesOK(e) == LET N == Pow2(e.d)
+                  M == Pow2(e.dd)
+                  c == e.c
+                  sides == [o \in Ordinals |-> ExternalSide(N, c, M, o)]
+                  corners == [d \in Cardinals |-> ExternalCorner(N, c, M, d)]
+                  ext == UNION {sides[o] : o \in Ordinals} \cup UNION {corners[d] : d \in Cardinals}
+              IN /\ e.p = 0 /\ e.free = 1 /\ e.freep = 0 /\ e.ssame = 1
+                 /\ e.ie = InternalEdgeWalk(c, M)
+                 /\ IsSetSeq(e.ies, InternalEdgeSet(c, M)) /\ e.ies_inc = 1
+                 /\ IsSetSeq(e.ee, ext) /\ IsSetSeq(e.ees, ext) /\ e.ees_inc = 1
+                 /\ \A o \in Ordinals : IsSetSeq(e.side[o], sides[o]) /\ IsSetSeq(e.ipart[o], InternalSide(c, M, o))
+                 /\ \A d \in Cardinals : ToSet(e.corner[d]) = corners[d] /\ e.icorner[d] = InternalCorner(c, M, d)
+
 Check(e) == CASE e.ev = "hash" -> HashOK(e)
               [] e.ev = "hash_bad" -> HashBadOK(e)
               [] e.ev = "hier" -> HierOK(e)
               [] e.ev = "neigh" -> NeighOK(e)
               [] e.ev = "neigh_bad" -> NeighBadOK(e)
+              [] e.ev = "edges" -> EdgesOK(e)
               [] OTHER -> FALSE
 
 Init == l = 1 /\ bad = <<>>
